@@ -226,6 +226,358 @@ def pie_cases(ctx, quick):
     return cases, meta
 
 
+# ---------------------------------------------------------------------- framing: KMIPProtocol.read on chunked transports
+def chunk_plans(n, rng, quick):
+    """Chunking classes for an n-byte stream."""
+    plans = [('whole',), ('bytes',), ('cuts', [4]), ('cuts', [8]), ('cuts', [1, 7]), ('cuts', [3, 8, 9]), ('size', 7),
+             ('cuts', sorted(rng.sample(range(1, max(2, n)), min(max(0, n - 1), rng.randint(1, 6)))) if n > 2 else [1])]
+    if n > 8:
+        plans.append(('cuts', [8, n - 1]))
+    if not quick:
+        plans += [('size', k) for k in (2, 3, 5, 16)]
+    return plans
+
+
+def truncation_points(n, rng, quick):
+    pts = {0, 1, 4, 7, 8, 9, n - 1, n - 8 if n > 16 else n - 1, n // 2}
+    pts |= {rng.randrange(0, n) for _ in range(2 if quick else 8)}
+    return sorted(p for p in pts if 0 <= p < n)
+
+
+def read_observe(chunks):
+    sock = D.ChunkSock(chunks=chunks)
+    proto = KMIPProtocol(sock)
+    try:
+        data = proto.read()
+    except EOFError:
+        return ('eof',), sock
+    except RequestLengthMismatch as e:
+        return ('short', e.expected, e.received), sock
+    return ('ok', bytes(data.buffer)), sock
+
+
+def fres_coq(obs, sock):
+    if obs[0] == 'ok':
+        return '(FOk %s %s)' % (D.cp.byts(obs[1]), D.cp.lst(sock.chunks, D.cp.byts))
+    if obs[0] == 'eof':
+        return 'FEof'
+    return '(FShort %s %s)' % (D.cp.z(obs[1]), D.cp.z(obs[2]))
+
+
+def framing_cases(ctx, quick):
+    rng = ctx.subrng('framing')
+    cases, meta = [], []
+    streams = []
+    for L in ([0, 1, 8, 13, 24] if quick else [0, 1, 2, 7, 8, 9, 16, 24, 40, 64]):
+        body = D.gen_bytes(rng, L, L)
+        frame = bytes([0x42, 0x00, 0x7b, 0x01]) + L.to_bytes(4, 'big') + body
+        streams.append(('frame', frame, len(frame)))
+        streams.append(('frame+more', frame + D.gen_bytes(rng, 1, 12), len(frame)))
+        streams.append(('two-frames', frame + frame, len(frame)))
+    streams.append(('huge-length', bytes.fromhex('42007b01ffffffff') + D.gen_bytes(rng, 5, 5), None))
+    streams.append(('big-length', bytes.fromhex('42007b0100010000') + D.gen_bytes(rng, 20, 20), None))
+    for _ in range(4 if quick else 20):
+        streams.append(('random', D.gen_bytes(rng, 0, 30), None))
+    for label, data, flen in streams:
+        n = len(data)
+        todo = [(pl, data) for pl in chunk_plans(n, rng, quick)]
+        if flen:
+            todo += [(('whole',), data[:k]) for k in truncation_points(flen, rng, quick)]
+            todo += [(('bytes',), data[:k]) for k in truncation_points(flen, rng, True)[:4]]
+        seen = set()
+        for plan, d in todo:
+            chunks = D.chunk(d, plan)
+            key = tuple(chunks)
+            if key in seen:
+                continue
+            seen.add(key)
+            obs, sock = read_observe(chunks)
+            cases.append('(CRead %s %s)' % (D.cp.lst(chunks, D.cp.byts), fres_coq(obs, sock)))
+            meta.append((label, plan, d.hex(), obs[0]))
+            ctx.count('framing.%s.%s' % (label, obs[0]))
+            ctx.case_seen(('read', key), nontrivial=True)
+            # direct oracle: a complete frame at the head of the stream is delivered intact; anything shorter is an error
+            complete = flen is not None and len(d) >= flen
+            if complete and (obs[0] != 'ok' or obs[1] != data[:flen] or b''.join(sock.chunks) != d[flen:]):
+                ctx.violation({'client': 'protocol', 'what': 'frame-not-delivered-intact'},
+                              {'chunks': [c.hex() for c in chunks], 'observed': repr(obs)[:300]},
+                              'KMIPProtocol.read did not deliver a complete message intact under chunking %r' % (plan,))
+            if flen is not None and len(d) < flen and obs[0] == 'ok':
+                ctx.violation({'client': 'protocol', 'what': 'truncated-stream-delivered'},
+                              {'chunks': [c.hex() for c in chunks], 'observed': repr(obs)[:300]},
+                              'KMIPProtocol.read returned a message although the stream ended early')
+    return cases, meta
+
+
+# ---------------------------------------------------------------------- whole calls under chunking / truncation
+def chunked_cases(ctx, quick):
+    rng = ctx.subrng('chunked')
+    cases, meta = [], []
+    vi = 0
+    for op in D.OPS:
+        version = D.VERSIONS[vi % len(D.VERSIONS)]
+        vi += 1
+        if op.min_version is not None and version < op.min_version:
+            version = op.min_version
+        for label in ('success', 'failure'):
+            for attempt in range(6):
+                kwargs = op.args(rng, version)
+                if label == 'success':
+                    items = [Item(RS.SUCCESS, payload=op.payload(rng, version))]
+                else:
+                    items = [Item(RS.OPERATION_FAILED, rng.choice(list(RR)), D.gen_text(rng, 1, 20))]
+                base, resp, sock = scripted_call(op, version, kwargs, items=items)
+                if sock.sent and resp.request is not None:
+                    break
+            else:
+                ctx.count('chunked.%s.nothing-emitted' % op.name)
+                continue
+            frame = resp.response_bytes
+            abstract = abstract_items(version, resp, items, False)
+            n = len(frame)
+            plans = chunk_plans(n, rng, quick)
+            truncs = [('truncate', k) for k in truncation_points(n, rng, quick)] + [('truncate', n // 2, ('bytes',))]
+            for plan in plans + truncs:
+                out, _, _ = scripted_call(op, version, kwargs, raw=frame, plan=plan)
+                chunks = D.chunk(frame, plan)
+                truncated = plan[0] == 'truncate'
+                w = {'chunking': repr(plan), 'response_hex': frame.hex(), 'whole_delivery': D.outcome_plain(base)}
+                if truncated:
+                    oracle(ctx, op, version, label, False, abstract, None, out, truncated=True, witness=w)
+                    if out[0] != 'other' or out[1] not in ('EOFError', 'RequestLengthMismatch'):
+                        ctx.count('chunked.truncated.unexpected:%s' % (out[1] if out[0] == 'other' else out[0]))
+                elif D.outcome_coq(out) != D.outcome_coq(base):
+                    w.update({'client': 'ProxyKmipClient', 'method': op.name, 'observed': D.outcome_plain(out)})
+                    ctx.violation({'client': 'pie', 'op': op.name, 'what': 'chunking-changes-outcome'}, w,
+                                  '%s: the outcome depends on how the transport split the response (%r)' % (op.name, plan))
+                cases.append('(CCall %s %s %s %s %s)' % (op.model, D.cp.lst(chunks, D.cp.byts), D.cp.byts(frame),
+                                                       D.resp_coq(abstract), D.outcome_coq(out)))
+                meta.append((op.name, version.name, label, repr(plan), D.outcome_plain(out)))
+                ctx.count('chunked.%s.%s.%s' % (label, plan[0], out[0] if out[0] != 'other' else 'other:' + out[1]))
+                ctx.case_seen(('call', op.name, label, repr(plan)), nontrivial=True)
+    return cases, meta
+
+
+# ---------------------------------------------------------------------- KMIPProxy level
+def proxy_cases(ctx, quick):
+    rng = ctx.subrng('proxy')
+    cases, meta = [], []
+    all_reasons = list(RR)
+    ri = 0
+    for op in D.OPS + D.PROXY_ONLY:
+        for version in D.VERSIONS:
+            if op.min_version is not None and version < op.min_version:
+                continue
+            call = D.PROXY_CALLS[op.name]
+            if version >= KV.KMIP_2_0 and op.name in D.PROXY_CALLS_20:
+                call = D.PROXY_CALLS_20[op.name]
+            reasons = [all_reasons[(ri + k) % len(all_reasons)] for k in range(2 if quick else 8)]
+            ri += len(reasons)
+            shapes = shapes_for(op, version, rng, reasons, quick)
+            for label, legal, items in shapes:
+                resp = D.Scripted(version, items=items)
+                sock = D.ChunkSock(resp)
+                cl = D.make_client(version, sock)
+                obs = D.proxy_observe(lambda: call(cl.proxy, rng))
+                if not sock.sent:
+                    ctx.count('proxy.%s.%s.nothing-emitted:%s' % (op.name, version.name, obs[1] if obs[0] == 'exc' else obs[0]))
+                    break
+                if resp.request is None:
+                    ctx.violation({'client': 'proxy', 'op': op.name, 'what': 'request-not-decodable', 'version': version.name},
+                                  {'method': 'KMIPProxy.' + op.name, 'kmip_version': version.name, 'request_hex': sock.sent[0].hex(),
+                                   'decoder_error': resp.request_error}, 'KMIPProxy.%s emitted a request the server-side decoder rejects' % op.name)
+                    break
+                abstract = abstract_items(version, resp, items, False)
+                cases.append('(CProxy %s %s %s)' % (op.model, D.resp_coq(abstract), D.pout_coq(obs)))
+                meta.append((op.name, version.name, label, D.pout_plain(obs)))
+                ctx.count('proxy.%s.%s' % (label, obs[0] if obs[0] != 'exc' else 'exc:' + obs[1]))
+                ctx.case_seen(('proxy', op.name, version.name, label, cases[-1]), nontrivial=True)
+                # direct oracle: what comes back carries exactly the first item's status / reason / message
+                if not abstract:
+                    continue
+                first = abstract[0]
+                exp = (first['status'], first['reason'], first['msg'].decode('utf-8') if first['msg'] is not None else None)
+                got = D.pout_triple(obs)
+                w = {'client': 'KMIPProxy', 'method': op.name, 'kmip_version': version.name, 'response': label,
+                     'response_items': [i.describe() for i in items], 'observed': D.pout_plain(obs), 'expected': repr(exp)}
+                if got is not None and got != exp:
+                    ctx.violation({'client': 'proxy', 'op': op.name, 'response': label, 'what': 'result-miscopied'}, w,
+                                  'KMIPProxy.%s: status/reason/message of the result differ from the response' % op.name)
+                if obs[0] == 'payload' and first['status'] != 0:
+                    ctx.violation({'client': 'proxy', 'op': op.name, 'response': label, 'what': 'success-on-failure'}, w,
+                                  'KMIPProxy.%s returned a payload although the result status was not Success' % op.name)
+                if got is None and obs[0] == 'exc' and legal and first['status'] != 0:
+                    sig = {'client': 'proxy', 'op': op.name, 'exc': obs[1],
+                           'response': 'failure' if op.name in ('check', 'discover_versions') else
+                                       ('failure-without-message' if first['msg'] is None else 'failure')}
+                    if op.name in PAYLOAD_OPS:
+                        sig['path'] = 'send_request_payload'
+                    if op.name == 'discover_versions' and first['op'] is None:
+                        sig['response'] = 'request-failure'
+                    ctx.violation(sig, w, 'KMIPProxy.%s raised %s instead of reporting a legal failure response (%s)' % (op.name, obs[1], label))
+    return cases, meta
+
+
+# ---------------------------------------------------------------------- K(a): the real server stack
+def server_call(ctx, st, op, version, kwargs, cases, meta, tag):
+    n0 = len(st.decoded)
+    sock = D.ChunkSock(st)
+    cl = D.make_client(version, sock)
+    out = D.run_call(lambda: D.call_pie(cl, op, kwargs))
+    if not sock.sent:
+        ctx.count('server.%s.%s.nothing-emitted:%s' % (op.name, version.name, out[1] if out[0] == 'other' else out[0]))
+        return out
+    w = {'client': 'ProxyKmipClient', 'method': op.name, 'arguments': repr(kwargs)[:500], 'kmip_version': version.name,
+         'request_hex': sock.sent[-1].hex(), 'response_hex': st.responses[-1].hex(), 'observed': D.outcome_plain(out)}
+    if len(st.decoded) == n0:
+        ctx.violation({'client': 'pie', 'op': op.name, 'what': 'request-not-decodable', 'version': version.name}, w,
+                      '%s (%s) emitted a request the server could not decode' % (op.name, version.name))
+    else:
+        req = st.decoded[-1]
+        hv = req.request_header.protocol_version
+        problems = []
+        if (hv.major, hv.minor) != D.VER_TUPLE[version]:
+            problems.append(('protocol version', D.VER_TUPLE[version], (hv.major, hv.minor)))
+        if req.request_header.batch_count.value != 1 or len(req.batch_items) != 1:
+            problems.append(('batch count', 1, (req.request_header.batch_count.value, len(req.batch_items))))
+        else:
+            bi = req.batch_items[0]
+            if bi.operation.value != op.code:
+                problems.append(('operation', op.code.name, bi.operation.value.name))
+            else:
+                for what, exp, got in D.request_expectations(op, kwargs, bi.request_payload, version):
+                    if exp != got:
+                        problems.append((what, exp, got))
+        for what, exp, got in problems[:3]:
+            w2 = dict(w)
+            w2.update({'field': what, 'expected': repr(exp)[:300], 'server_decoded': repr(got)[:300]})
+            ctx.violation({'client': 'pie', 'op': op.name, 'what': 'request-field-mismatch', 'field': what}, w2,
+                          '%s (%s): the server decoded %s = %r, the argument was %r' % (op.name, version.name, what, got, exp))
+        ctx.count('server.request.%s' % ('ok' if not problems else 'mismatch'))
+    m = D.decode_response(version, st.responses[-1])
+    abstract = [D.ritem_of_batch_item(bi) for bi in m.batch_items] if m is not None else None
+    exp = None
+    label = 'server:undecodable'
+    if abstract:
+        ok = abstract[0]['status'] == 0
+        label = 'server:success' if ok else 'server:failure'
+        if ok and m.batch_items[0].response_payload is not None:
+            exp = D.to_val(op.expect(m.batch_items[0].response_payload))
+    oracle(ctx, op, version, label, True, abstract, exp, out, witness=w)
+    cases.append('(CPie %s %s %s)' % (op.model, D.resp_coq(abstract), D.outcome_coq(out)))
+    meta.append((op.name, version.name, tag, label, D.outcome_plain(out)))
+    reason = ''
+    if abstract and abstract[0]['status'] != 0 and abstract[0]['reason'] is not None:
+        reason = '.' + RR(abstract[0]['reason']).name
+    ctx.count('server.%s.%s%s' % (op.name, label.split(':')[1], reason))
+    ctx.case_seen(('server', op.name, version.name, cases[-1]), nontrivial=True)
+    return out
+
+
+def scenario(ctx, st, version, rng, cases, meta):
+    """A history on the real server in which most operations succeed, so that real payloads travel back."""
+    CA, CUM = enums.CryptographicAlgorithm, enums.CryptographicUsageMask
+    O = D.OPS_BY_NAME
+
+    def call(opname_, **kw):
+        out = server_call(ctx, st, O[opname_], version, kw, cases, meta, 'scenario')
+        return out[1] if out[0] == 'return' else None
+    v2 = version >= KV.KMIP_2_0
+    opn = None if v2 else 'default'
+    uid = call('create', algorithm=CA.AES, length=256, operation_policy_name=opn, name=D.gen_text(rng, 3, 12),
+               cryptographic_usage_mask=[CUM.ENCRYPT, CUM.DECRYPT])
+    if uid is None:
+        return
+    call('get_attribute_list', uid=uid)
+    call('get_attributes', uid=uid, attribute_names=['Name', 'Cryptographic Length', 'State', 'Cryptographic Algorithm'])
+    call('get_attributes', uid=uid, attribute_names=None)
+    call('get', uid=uid, key_wrapping_specification=None)
+    call('encrypt', data=b'too early', uid=uid, cryptographic_parameters=None, iv_counter_nonce=None)     # not active yet: failure
+    call('activate', uid=uid)
+    cpd = {'cryptographic_algorithm': CA.AES, 'block_cipher_mode': enums.BlockCipherMode.CBC, 'padding_method': enums.PaddingMethod.PKCS5}
+    pt, iv = D.gen_bytes(rng, 1, 40), D.gen_bytes(rng, 16, 16)
+    r = call('encrypt', data=pt, uid=uid, cryptographic_parameters=cpd, iv_counter_nonce=iv)
+    if r is not None:
+        back = call('decrypt', data=r[0], uid=uid, cryptographic_parameters=cpd, iv_counter_nonce=iv)
+        if back != pt:
+            ctx.violation({'client': 'pie', 'what': 'encrypt-decrypt-roundtrip'}, {'version': version.name, 'plaintext': pt.hex(), 'got': repr(back)},
+                          'decrypt(encrypt(x)) through the client and the real server is not x')
+    hk = call('create', algorithm=CA.HMAC_SHA256, length=256, operation_policy_name=None, name=None,
+              cryptographic_usage_mask=[CUM.MAC_GENERATE, CUM.MAC_VERIFY])
+    if hk is not None:
+        call('activate', uid=hk)
+        call('mac', data=D.gen_bytes(rng, 0, 30), uid=hk, algorithm=CA.HMAC_SHA256)
+        call('mac', data=b'x', uid=hk, algorithm=None)
+    kp = call('create_key_pair', algorithm=CA.RSA, length=1024, operation_policy_name=opn, public_name='pub' + D.gen_text(rng, 1, 5),
+              public_usage_mask=[CUM.VERIFY], private_name='priv' + D.gen_text(rng, 1, 5), private_usage_mask=[CUM.SIGN])
+    if kp is not None:
+        pub, priv = kp
+        call('activate', uid=priv)
+        call('activate', uid=pub)
+        sp = {'cryptographic_algorithm': CA.RSA, 'hashing_algorithm': enums.HashingAlgorithm.SHA_256, 'padding_method': enums.PaddingMethod.PSS}
+        msg = D.gen_bytes(rng, 1, 30)
+        sig = call('sign', data=msg, uid=priv, cryptographic_parameters=sp)
+        if sig is not None:
+            call('signature_verify', message=msg, signature=sig, uid=pub, cryptographic_parameters=sp)
+            call('signature_verify', message=msg + b'!', signature=sig, uid=pub, cryptographic_parameters=sp)
+        call('get', uid=pub, key_wrapping_specification=None)
+        call('get', uid=priv, key_wrapping_specification=None)
+    call('derive_key', object_type=enums.ObjectType.SYMMETRIC_KEY, unique_identifiers=[uid], derivation_method=enums.DerivationMethod.HASH,
+         derivation_parameters={'cryptographic_parameters': {'hashing_algorithm': enums.HashingAlgorithm.SHA_256}},
+         cryptographic_length=128, cryptographic_algorithm=CA.AES)
+    for _ in range(3):
+        o = D.gen_pie_object(rng)
+        if v2:
+            o.operation_policy_name = None
+        ruid = call('register', managed_object=o)
+        if ruid is not None:
+            got = call('get', uid=ruid, key_wrapping_specification=None)
+            if got is not None and D.to_val(got) != D.to_val(o):
+                ctx.violation({'client': 'pie', 'what': 'register-get-roundtrip'}, {'version': version.name, 'registered': repr(D.to_val(o)), 'got': repr(D.to_val(got))},
+                              'get(register(x)) through the client and the real server is not x')
+    call('locate', maximum_items=None, offset_items=None, storage_status_mask=None, object_group_member=None, attributes=None)
+    call('locate', maximum_items=2, offset_items=1, storage_status_mask=None, object_group_member=None,
+         attributes=[D.kdrv.attr('OBJECT_TYPE', enums.ObjectType.SYMMETRIC_KEY)])
+    if not v2:
+        call('modify_attribute', unique_identifier=uid, attribute=D.kdrv.attr('NAME', D.kdrv.name_value('renamed'), 0))
+        call('delete_attribute', unique_identifier=uid, attribute_name='Name', attribute_index=0)
+    else:
+        call('set_attribute', unique_identifier=uid, attribute_name='Sensitive', attribute_value=True)
+    call('check', uid=uid, usage_limits_count=1, cryptographic_usage_mask=[CUM.ENCRYPT], lease_time=None)
+    call('rekey', uid=uid, offset=0)
+    call('destroy', uid=uid)                                              # active: failure
+    call('revoke', revocation_reason=enums.RevocationReasonCode.KEY_COMPROMISE, uid=uid, revocation_message='gone',
+         compromise_occurrence_date=1500000000)
+    call('destroy', uid=uid)
+    call('get', uid=uid, key_wrapping_specification=None)                 # destroyed: failure
+
+
+def server_cases(ctx, quick):
+    rng = ctx.subrng('server')
+    cases, meta = [], []
+    st = D.ServerStack(str(ctx.work))
+    try:
+        for version in D.VERSIONS:
+            scenario(ctx, st, version, rng, cases, meta)
+        for op in D.OPS:
+            for version in D.VERSIONS:
+                if op.min_version is not None and version < op.min_version:
+                    continue
+                done = 0
+                for attempt in range(12):
+                    if done >= (2 if quick else 8):
+                        break
+                    kwargs = op.args(rng, version)
+                    n = len(cases)
+                    server_call(ctx, st, op, version, kwargs, cases, meta, 'sweep')
+                    done += len(cases) - n
+                if done == 0:
+                    ctx.count('server.%s.%s.never-emitted' % (op.name, version.name))
+    finally:
+        st.close()
+    return cases, meta
+
+
 def load_own_findings(ctx):
     """known_findings.json is merged by bin/mkmanifest; until then (and afterwards, harmlessly) read findings.d/C19.json too."""
     import json
@@ -250,5 +602,28 @@ def run(ctx):
     cases, meta = pie_cases(ctx, quick)
     bad = ctx.run_cases('pie', HEADER, cases, 'check_ccase', what='Client.interpret vs ProxyKmipClient methods on scripted responses')
     for i in bad[:20]:
+        ctx.log('pie disagreement', meta[i], cases[i][:700])
         ctx.disagreement('pie', {'case': meta[i], 'coq': cases[i][:600]})
     ctx.sample({'pie_case': cases[0][:600]})
+    fcases, fmeta = framing_cases(ctx, quick)
+    bad = ctx.run_cases('framing', HEADER, fcases, 'check_ccase', shard=150, what='Framing.read vs KMIPProtocol.read on chunked transports')
+    for i in bad[:20]:
+        ctx.disagreement('framing', {'case': fmeta[i], 'coq': fcases[i][:600]})
+    ccases, cmeta = chunked_cases(ctx, quick)
+    bad = ctx.run_cases('calls', HEADER, ccases, 'check_ccase', shard=60,
+                        what='EndToEnd.client_call vs ProxyKmipClient methods with the response split / cut by the transport')
+    for i in bad[:20]:
+        ctx.disagreement('calls', {'case': cmeta[i], 'coq': ccases[i][:300]})
+    pcases, pmeta = proxy_cases(ctx, quick)
+    bad = ctx.run_cases('proxy', HEADER, pcases, 'check_ccase', what='Client.proxy_call vs KMIPProxy methods on scripted responses')
+    for i in bad[:20]:
+        ctx.log('proxy disagreement', pmeta[i], pcases[i][:700])
+        ctx.disagreement('proxy', {'case': pmeta[i], 'coq': pcases[i][:600]})
+    scases, smeta = server_cases(ctx, quick)
+    bad = ctx.run_cases('server', HEADER, scases, 'check_ccase', what='Client.interpret vs ProxyKmipClient methods against the real KmipSession + KmipEngine')
+    for i in bad[:20]:
+        ctx.log('server disagreement', smeta[i], scases[i][:700])
+        ctx.disagreement('server', {'case': smeta[i], 'coq': scases[i][:600]})
+    ctx.sample({'server_case': scases[0][:600]})
+    ctx.sample({'framing_case': fcases[len(fcases) // 2][:400]})
+    ctx.sample({'proxy_case': pcases[0][:600]})
